@@ -3,7 +3,7 @@ from __future__ import annotations
 
 from typing import Any, Union
 
-from torch import Size, Tensor
+from torch import Size, Tensor, broadcast_shapes
 from torch.distributions import Normal
 
 from torchtree.core.abstractparameter import AbstractParameter
@@ -64,7 +64,10 @@ class ScaleMixtureNormal(CallableModel):
         )
 
     def _sample_shape(self) -> Size:
-        return self.x.tensor.shape[:-1]
+        parameters = (self.x, self.gobal_scale, self.local_scale, self.slab)
+        return broadcast_shapes(
+            *[p.tensor.shape[:-1] for p in parameters if hasattr(p, 'tensor')]
+        )
 
     def handle_model_changed(self, model, obj, index) -> None:
         pass
